@@ -11,6 +11,10 @@ struct / tuple / unit variants, generic tagged enum, alias, generic alias); ever
  (c) the oracle = the property on the implementation's text: every referenced name that is not a builtin or a
      generic parameter must be a defined name.  The references that fail must be exactly those the `Known_*`
      predicates (re-implemented here, and cross-checked against the Lean ones) predict; anything else is a VIOLATION.
+     Since the `fix:` commits 821da1d / b182a80 / 03e02a1 the only per-reference class left is `Known_def_original`
+     = a reference to a renamed *Go enum*; the witnesses of the repaired classes (generic head, Kotlin/Scala/Go alias
+     definition, Kotlin/Scala parent class and helper struct) are replayed as regressions: they must pass the oracle,
+     and are reported as a VIOLATION "has returned" if they do not.
      Generic parameters: the field `v: T` of every generic struct must be printed with the type `T` (positional), and
      one program in ten has an item called `T` (the class Known_shadow).
 """
@@ -179,7 +183,7 @@ def skeleton_program(kinds, renamed):
 def def_uses_original(lang, kind):
     """TsV.C09.defUsesOriginal"""
     k = "alias" if kind in ("alias", "galias") else "enum" if kind in ("unit", "tagged", "gtagged") else "struct"
-    return (lang in ("kotlin", "scala", "go") and k == "alias") or (lang == "go" and k == "enum")
+    return lang == "go" and k == "enum"      # (Kotlin / Scala / Go aliases: repaired by b182a80)
 
 
 def leaves(t, out):
@@ -229,36 +233,32 @@ def predict(items, lang, pfx):
                     # a generic parameter; `reconcile` renames it when an item of that name carries serde(rename)
                     # (TsV.C09.Known_shadow): printed like a reference to that item
                     t = by.get(name)
-                    if t is not None and t["rename"] and not head:
+                    if t is not None and t["rename"]:
                         refs.add(pfx + ren(t))
                         fail.setdefault(pfx + ren(t), set()).add("shadow")
                     else:
                         refs.add(name)
                     continue
                 t = by[name]
-                spelled = pfx + (t["name"] if head else ren(t))
+                spelled = pfx + ren(t)       # plain leaves and (since 821da1d) generic heads alike
                 refs.add(spelled)
                 if spelled != dname(t):
-                    fail.setdefault(spelled, set()).add("generic-head" if head else "def-original")
+                    fail.setdefault(spelled, set()).add("def-original")
         if it["kind"] in ("tagged", "gtagged"):
             if lang != "typescript":
-                inner_def = pfx + (it["name"] if lang == "go" else ren(it)) + "VaInner"
-                inner_ref = pfx + (it["name"] if lang in ("go", "kotlin", "scala") else ren(it)) + "VaInner"
-                defs.add(inner_def)
-                refs.add(inner_ref)
-                if inner_ref != inner_def:
-                    fail.setdefault(inner_ref, set()).add("inner")
+                # TsV.C09.innerDefName = innerRefs: `<original>VaInner` in Go, `<renamed>VaInner` elsewhere (Kotlin / Scala
+                # referred to `<original>VaInner` before 03e02a1)
+                inner = pfx + (it["name"] if lang == "go" else ren(it)) + "VaInner"
+                defs.add(inner)
+                refs.add(inner)
             if lang in ("kotlin", "scala"):
-                refs.add(pfx + it["name"])
-                if pfx + it["name"] != dname(it):
-                    fail.setdefault(pfx + it["name"], set()).add("parent")
+                refs.add(pfx + ren(it))      # TsV.C09.parentRefs: the parent class of the cases (`<original>` before 03e02a1)
         if it["kind"] == "unit" and lang == "scala":
             refs.add(ren(it))
     return defs, refs, fail
 
 
-KNOWN_ID = {"shadow": "generic-parameter-renamed", "generic-head": "generic-head-not-renamed", "def-original": "definition-under-original-name",
-            "parent": "parent-class-original-name", "inner": "inner-struct-original-name"}
+KNOWN_ID = {"shadow": "generic-parameter-renamed", "def-original": "definition-under-original-name"}
 
 
 # ----------------------------------------------------------------------------- extractors over generated text
@@ -577,24 +577,57 @@ ENUM = ("#[typeshare]\n#[serde(rename = \"EnumNew\", tag = \"t\", content = \"c\
 GOENUM = "#[typeshare]\n#[serde(rename = \"UnitNew\")]\npub enum Un { P, Q }\n\n#[typeshare]\npub struct User { pub u: Un }\n"
 GEN = "#[typeshare]\n#[serde(rename = \"GenNew\")]\npub struct Ge<T> { pub v: T }\n\n#[typeshare]\npub struct User { pub g: Ge<String> }\n"
 SHADOW = "#[typeshare]\n#[serde(rename = \"TNew\")]\npub struct T { pub z: u8 }\n\n#[typeshare]\npub struct Holder<T> { pub t: T }\n"
+GOGENENUM = ("#[typeshare]\n#[serde(rename = \"GnNew\", tag = \"t\", content = \"c\")]\npub enum Gn<T> { A(T) }\n\n"
+             "#[typeshare]\npub struct User { pub g: Gn<String> }\n")
 WITNESSES = [
     # (known id, language, prefix, source, name referred to, name that should have been used)
-    ("definition-under-original-name", "kotlin", "", ALIAS, "AliasNew", "Al"),
-    ("definition-under-original-name", "scala", "", ALIAS, "AliasNew", "Al"),
-    ("definition-under-original-name", "go", "", ALIAS, "AliasNew", "Al"),
     ("definition-under-original-name", "go", "", GOENUM, "UnitNew", "Un"),
-    ("parent-class-original-name", "kotlin", "", ENUM, "En", "EnumNew"),
-    ("parent-class-original-name", "scala", "", ENUM, "En", "EnumNew"),
-    ("inner-struct-original-name", "kotlin", "", ENUM, "EnAInner", "EnumNewAInner"),
-    ("inner-struct-original-name", "scala", "", ENUM, "EnAInner", "EnumNewAInner"),
-] + [("generic-head-not-renamed", l, "", GEN, "Ge", "GenNew") for l in LANGS] + [
-    ("generic-parameter-renamed", l, "", SHADOW, "TNew", "T") for l in LANGS]
+    ("definition-under-original-name", "go", "", GOGENENUM, "GnNew", "Gn"),
+] + [("generic-parameter-renamed", l, "", SHADOW, "TNew", "T") for l in LANGS]
+
+# the witnesses of the repaired classes: (fixed class, commit, language, prefix, source, name that was referred to /
+# defined by mistake, name that must now be both defined and referred to)
+REPAIRED = [
+    ("definition-under-original-name (aliases)", "b182a80", "kotlin", "", ALIAS, "Al", "AliasNew"),
+    ("definition-under-original-name (aliases)", "b182a80", "kotlin", "OP", ALIAS, "OPAl", "OPAliasNew"),
+    ("definition-under-original-name (aliases)", "b182a80", "scala", "", ALIAS, "Al", "AliasNew"),
+    ("definition-under-original-name (aliases)", "b182a80", "go", "", ALIAS, "Al", "AliasNew"),
+    ("parent-class-original-name", "03e02a1", "kotlin", "", ENUM, "En", "EnumNew"),
+    ("parent-class-original-name", "03e02a1", "kotlin", "OP", ENUM, "OPEn", "OPEnumNew"),
+    ("parent-class-original-name", "03e02a1", "scala", "", ENUM, "En", "EnumNew"),
+    ("inner-struct-original-name", "03e02a1", "kotlin", "", ENUM, "EnAInner", "EnumNewAInner"),
+    ("inner-struct-original-name", "03e02a1", "kotlin", "OP", ENUM, "OPEnAInner", "OPEnumNewAInner"),
+    ("inner-struct-original-name", "03e02a1", "scala", "", ENUM, "EnAInner", "EnumNewAInner"),
+] + [("generic-head-not-renamed", "821da1d", l, "", GEN, "Ge", "GenNew") for l in LANGS]
 
 MULTI_A = "#[typeshare]\npub struct Foo { pub a: u8 }\n"
 MULTI_B = "use alpha::Foo;\n#[typeshare]\npub struct Bar { pub f: Foo }\n"
 
 
+def replay_repaired(check):
+    """the witnesses of the repaired classes must pass the oracle now; a failure means the defect has returned"""
+    reqs = [{"op": "generate", "lang": l, "config": cfg_of(l, p), "multi_file": False, "target_os": [],
+             "files": [{"src": src, "crate": "", "file_name": "out", "path": "src/lib.rs"}]} for _, _, l, p, src, _, _ in REPAIRED]
+    ans = runner(reqs)
+    for (cls, commit, lang, pfx, src, old, new), a in zip(REPAIRED, ans):
+        check.count("repaired-witness-replayed")
+        case = {"lang": lang, "prefix": pfx, "source": src}
+        if "ok" not in a:
+            check.violation("the regression witness of the repaired class %s is not generated any more: %s" % (cls, str(a)[:200]),
+                            case=case, impl=a, failing_input=False, broken="correspondence L2 generate_types (regression witnesses of TsV.C09.repaired_*)")
+            continue
+        text = list(a["ok"].values())[0]
+        defs, aux, refs, params, fields = extract(lang, text)
+        undefined = sorted(n for n in refs if n not in defs and n not in BUILTIN[lang] and n not in params)
+        if undefined or old in defs or old in refs or new not in defs or new not in refs:
+            check.violation("the repaired class %s (fix %s) has returned: %s output (prefix %r) refers to %s / defines %s where `%s` "
+                            "should be both defined and referred to (undefined references: %s)"
+                            % (cls, commit, lang, pfx, sorted(refs - BUILTIN[lang]), sorted(defs - aux), new, undefined),
+                            case=case, impl=a, failing_input=True)
+
+
 def replay_witnesses(check):
+    replay_repaired(check)
     reqs = [{"op": "generate", "lang": l, "config": cfg_of(l, p), "multi_file": False, "target_os": [],
              "files": [{"src": src, "crate": "", "file_name": "out", "path": "src/lib.rs"}]} for _, l, p, src, _, _ in WITNESSES]
     reqs.append({"op": "generate", "lang": "kotlin", "config": cfg_of("kotlin", "OP"), "multi_file": True, "target_os": [],
